@@ -115,6 +115,9 @@ pub struct TextSpec {
     /// more of the language: multiclass / defm, defvar, if / else, bang operators, lists,
     /// assert, a field referring to an inherited field
     pub rich2: bool,
+    /// the include statements sit inside the body of a defset (the declarations of the included
+    /// files become members of a set declared in THIS file)
+    pub inc_in_defset: bool,
 }
 
 fn wide(alphabet: Alphabet, n: u32) -> &'static str {
@@ -147,7 +150,14 @@ impl TextSpec {
                 s.push_str(e);
             }
         }
+        let in_set = self.inc_in_defset && !self.includes.is_empty();
+        if in_set {
+            s.push_str(&format!("class IB_{k};{e}defset list<IB_{k}> IS_{k} = {{{e}"));
+        }
         for inc in &self.includes {
+            if in_set {
+                s.push_str("  ");
+            }
             if self.dotted && self.version % 2 == 0 {
                 // through the parent directory and back ("/w+x/../w+x/b.td")
                 s.push_str(&format!("include \"../w+x/{inc}\"{e}"));
@@ -157,17 +167,20 @@ impl TextSpec {
                 s.push_str(&format!("include \"{inc}\"{e}"));
             }
         }
+        if in_set {
+            s.push_str(&format!("}}{e}"));
+        }
         if self.pp {
             s.push_str(&format!("#define F_{k}{e}"));
         }
         s.push_str(&format!("class V_{n:04};{e}"));
         if self.inline_wide {
             s.push_str(&format!(
-                "class K_{k} {{ string s = \"{}\"; int x = 1; }}{e}",
+                "class K_{k} {{ string s = \"{}\"; int x = 1; int width = 8; }}{e}",
                 wide(self.alphabet, n)
             ));
         } else {
-            s.push_str(&format!("class K_{k} {{ int x = 1; }}{e}"));
+            s.push_str(&format!("class K_{k} {{ int x = 1; int width = 8; }}{e}"));
         }
         s.push_str(&format!("// doc of T_{k} {}{e}class T_{k}<int p> {{ int q = p; }}{e}", wide(self.alphabet, n + 1)));
         s.push_str(&format!("def D_{k} : K_{k};{e}"));
@@ -195,7 +208,7 @@ impl TextSpec {
             s.push_str(&format!("def FA_{k} : K_{k} {{{e}  int z = x;{e}}}{e}"));
         }
         for u in &self.uses {
-            s.push_str(&format!("def D_{k}_{u} : K_{u} {{ let x = 2; }}{e}"));
+            s.push_str(&format!("def D_{k}_{u} : K_{u} {{ let x = 2; let width = 16; }}{e}"));
         }
         for u in &self.probe_bm {
             s.push_str(&format!("def DBM_{k}_{u} : BM_{u};{e}"));
@@ -411,6 +424,7 @@ pub fn gen_text(rng: &mut Rng, vs: &mut Versions, key: &str, includable: &[&str]
         } else {
             0
         },
+        inc_in_defset: rng.chance(1, 6),
     }
 }
 
@@ -431,7 +445,13 @@ pub fn edit_text(rng: &mut Rng, vs: &mut Versions, prev: &TextSpec, includable: 
         12 => t.pp = cfg.eol == Eol::Lf && !t.pp,
         11 => t.no_final_eol = !t.no_final_eol,
         10 => t.trail = !t.trail,
-        9 => t.dotted = !t.dotted,
+        9 => {
+            if rng.chance(1, 2) {
+                t.dotted = !t.dotted
+            } else {
+                t.inc_in_defset = !t.inc_in_defset
+            }
+        }
         7 => t.joined = !t.joined,
         8 => t.rich = !t.rich,
         0 if !includable.is_empty() || !cfg.cycle_keys.is_empty() => {
@@ -539,6 +559,15 @@ pub fn gen_request(rng: &mut Rng, open: &BTreeMap<String, String>, kinds: &[ReqK
             let (o, t) = rng.pick(&names).clone();
             // anywhere inside the identifier
             o + rng.below(t.len()) as u32
+        }
+    } else if kind == ReqKind::InlayHint && rng.chance(1, 2) {
+        // a partial range that begins or ends at, inside or right behind an identifier
+        let names = name_offsets(text);
+        if names.is_empty() {
+            0
+        } else {
+            let (o, t) = rng.pick(&names).clone();
+            o + rng.below(t.len() + 1) as u32
         }
     } else {
         0
@@ -793,6 +822,9 @@ pub fn gen_converge(rng: &mut Rng) -> Scenario {
     }
     let disk0 = b.disk.clone();
     let paced = rng.chance(1, 3);
+    // in a third of the sessions the editor does not save every change: a close then discards
+    // the buffer, and the file on disk (an older text) counts again
+    let unsaved = rng.chance(1, 3);
     let n_notifs = if many { rng.range(8, 20) } else { rng.range(2, 7) };
     for i in 0..n_notifs {
         if !b.open.is_empty() && rng.chance(1, 8) {
@@ -801,7 +833,8 @@ pub fn gen_converge(rng: &mut Rng) -> Scenario {
             close_doc(&mut b, &key_of_path(&picked));
         }
         let k = *rng.pick(&docs);
-        touch(rng, &mut b, &keys, k, &cfg, true, false);
+        let save = !unsaved || rng.chance(1, 3);
+        touch(rng, &mut b, &keys, k, &cfg, save, false);
         if rng.chance(1, 2) {
             let n = rng.range(1, 3);
             requests_burst(rng, &mut b, n, &ALL_REQ_KINDS, None);
